@@ -366,20 +366,18 @@ class LV:
         if k == "marker":
             return "dead" if _is_notset(v) else "live"
         dead = self.e["dead"]
-        if v[0] == "const":
-            return "dead" if v[1] == dead else "live"
-        if k == "count":
-            # uint read + positive constant >= 1
-            if v[0] == "binop" and v[1] == "Add":
-                for a, b in ((v[2], v[3]), (v[3], v[2])):
-                    if b[0] == "const" and isinstance(b[1], int) and b[1] >= 1 and a in reads:
-                        return "live"
-            return "?"
-        if k == "slot":
-            # a 'uint' counter value (read from the store) is >= 0, never -1
-            if v[0] == "store" and v[1] == "get_state":
-                return "live"
-            return "?"
+        from .linear import linform
+        f = linform(v)
+        if f is not None:
+            co, c = f
+            if not co:
+                return "dead" if c == dead else "live"
+            # values read from 'uint' counters are >= 0: a non-negative combination plus a constant > dead is live
+            if all(a in reads or (a[0] == "store" and a[1] == "get_state") for a in co) and all(x > 0 for x in co.values()):
+                if c > dead:
+                    return "live"
+                if k == "slot" and c >= 0:
+                    return "live"
         return "?"
 
     def _refine(self, test, outcome, st, reads):
@@ -400,22 +398,50 @@ class LV:
             return None
         dead = self.e["dead"]
         for x, y, o in ((a, b, op), (b, a, _flip(op))):
-            if x in reads and reads[x][0] == "value" and y[0] == "const" and isinstance(y[1], (int, float)) and not isinstance(y[1], bool):
+            if x in reads and reads[x][0] == "value":
+                yr = self._range_of(y)
+                if yr is None:
+                    continue
                 c = reads[x][1]
                 S = st[c][0]
-                poss = _possible(o, y[1], S, dead)
+                poss = _possible(o, yr, S, dead)
                 if outcome not in poss:
                     return False
-                # refine unknown
                 if S == "?":
-                    pd = _possible(o, y[1], "dead", dead)
-                    pl = _possible(o, y[1], "live", dead)
+                    pd = _possible(o, yr, "dead", dead)
+                    pl = _possible(o, yr, "live", dead)
                     if outcome in pd and outcome not in pl:
                         st[c][0] = "dead"
                     elif outcome in pl and outcome not in pd:
                         st[c][0] = "live"
                 return True
         return None
+
+    def _range_of(self, y):
+        """(lo, hi) of a comparison operand: a numeric constant, or a factory parameter with a validated lower bound."""
+        if y[0] == "const" and isinstance(y[1], (int, float)) and not isinstance(y[1], bool):
+            return (y[1], y[1])
+        if y[0] == "param" and y[1] in self._param_bounds():
+            return (self._param_bounds()[y[1]], None)
+        return None
+
+    def _param_bounds(self):
+        """window / stride are >= 1: roll() raises ValueError otherwise (checked on the source)."""
+        if hasattr(self, "_pb"):
+            return self._pb
+        import ast
+        self._pb = {}
+        if self.e["rel"] == "rxsci/data/roll.py":
+            m = self.site.module
+            b = m.bindings.get("roll")
+            if b is not None and b[0] == "def":
+                for n in b[1].body:
+                    if isinstance(n, ast.If) and len(n.body) == 1 and isinstance(n.body[0], ast.Raise):
+                        t = ast.unparse(n.test)
+                        for name in ("window", "stride"):
+                            if t in ("%s <= 0" % name, "%s < 1" % name, "0 >= %s" % name):
+                                self._pb[name] = 1
+        return self._pb
 
     def _assume_free(self, c, p, loop_iters):
         """The one explicit assumption: the slot chosen for a new sliding window is free."""
@@ -486,26 +512,51 @@ def _flip(op):
     return {"Lt": "Gt", "Gt": "Lt", "LtE": "GtE", "GtE": "LtE"}.get(op, op)
 
 
-def _possible(op, c, S, dead):
-    """Possible outcomes of (v op c) when v is dead (== dead) or live.
-
-    live means: v != dead and v >= 0 (counters and start indices are unsigned)."""
-    def ev(v):
-        return {"Eq": v == c, "NotEq": v != c, "Lt": v < c, "LtE": v <= c, "Gt": v > c, "GtE": v >= c}.get(op)
+def _possible(op, yr, S, dead):
+    """Possible outcomes of (v op y) for v dead (== dead) or live (v != dead, v >= 0; counters and start
+    indices are unsigned) and y anywhere in the interval yr = (lo, hi), hi None = unbounded."""
+    INF = float("inf")
     if S == "dead":
-        x = ev(dead)
-        return {x} if x is not None else {True, False}
-    if S == "live":
-        lo = max(dead + 1, 0)
-        # v in [lo, +inf)
-        outs = set()
-        for v in (lo, lo + 1, max(c - 1, lo), max(c, lo), max(c + 1, lo), max(c, lo) + 10 ** 6):
-            x = ev(v)
-            if x is None:
-                return {True, False}
-            outs.add(x)
-        return outs
-    return {True, False}
+        vlo = vhi = dead
+    elif S == "live":
+        vlo, vhi = max(dead + 1, 0), INF
+    else:
+        return {True, False}
+    ylo, yhi = yr[0], (INF if yr[1] is None else yr[1])
+    out = set()
+    if op == "Eq":
+        if max(vlo, ylo) <= min(vhi, yhi):
+            out.add(True)
+        if not (vlo == vhi == ylo == yhi):
+            out.add(False)
+    elif op == "NotEq":
+        if max(vlo, ylo) <= min(vhi, yhi):
+            out.add(False)
+        if not (vlo == vhi == ylo == yhi):
+            out.add(True)
+    elif op == "Lt":
+        if vlo < yhi:
+            out.add(True)
+        if vhi >= ylo:
+            out.add(False)
+    elif op == "LtE":
+        if vlo <= yhi:
+            out.add(True)
+        if vhi > ylo:
+            out.add(False)
+    elif op == "Gt":
+        if vhi > ylo:
+            out.add(True)
+        if vlo <= yhi:
+            out.add(False)
+    elif op == "GtE":
+        if vhi >= ylo:
+            out.add(True)
+        if vlo < yhi:
+            out.add(False)
+    else:
+        return {True, False}
+    return out
 
 
 def _child_str(c):
